@@ -66,7 +66,10 @@ CLAIMED = {
         technique="Coq proof (list lemmas over filter/existsb) + exhaustive vm_compute correspondence incl. the real call as binding oracle",
         ref='6/C19'),
     'C13': dict(
-        text=("Proof (limiter on its own): for EVERY label sequence (start / resume of a queued waiter / exit / cancel of a "
+        text=("Proof: the four methods of the Concurrency class (_retarget_semaphore, __aenter__, __aexit__, set_target) are TRANSLATED "
+              "from the Python source on every run into a tiny imperative language; an interpreter runs them on the model's state and "
+              "theorems show that they do exactly what the primitives of the hand-written limiter model do (the loop of "
+              "_retarget_semaphore = release_n, by induction). On that model (limiter on its own): for EVERY label sequence (start / resume of a queued waiter / exit / cancel of a "
               "queued waiter / set_target n>=1) of the LTS of Concurrency over CPython 3.12's Semaphore: conservation "
               "(holders + free + handed-over permits = _sem_value, value >= 0), bound (holders <= largest target ever in force), "
               "lowering (holders <= target + excess; excess never grows without set_target; each exit while there is excess "
